@@ -53,21 +53,16 @@ def pipe_items(tier, kinds_q, kinds_t=None, k1=True, k1_rules=None, big=True, ge
             out += configs_k1.items_for_own_fixtures(limit_values=2, rules=k1_rules)
     else:
         kt = kinds_t or kinds_q
-        wide = wide_kinds(kinds_q, kt)
-        out += universe.one_dev(corpus.seed_ids(("fix", "cls")), wide)
-        out += universe.one_dev(corpus.small_slice(), [k for k in kt if k not in wide])
-        out += universe.one_dev(corpus.seed_ids(("gen",)), gen_thorough_kinds or kinds_q[:1])
+        out += universe.one_dev(corpus.small_slice(), kt)
+        out += universe.one_dev(corpus.seed_ids(("fix", "cls")), wide_kinds(kinds_q, kt))
         if k1:
             out += configs_k1.items_for_own_fixtures(limit_values=None, rules=k1_rules)
     return out
 
 
-CHEAP = ("J", "CEG", "CO", "CO0", "PPO", "PGO", "IND3")  # operators with one position per line (not one per gap)
-
-
 def wide_kinds(kinds_q, kinds_t):
-    """operators applied to every fix/cls seed in the thorough tier: the first two of the quick set plus every per-line operator"""
-    return list(kinds_q[:2]) + [k for k in kinds_t if k in CHEAP and k not in kinds_q[:2]]
+    """operators applied to EVERY fix/cls seed in the thorough tier (one position per line, not one per gap)"""
+    return [k for k in ("J", "CEG") if k in kinds_t]
 
 
 def bound_text(tier, kinds_q, kinds_t=None):
@@ -77,7 +72,6 @@ def bound_text(tier, kinds_q, kinds_t=None):
         k = "1 configuration deviation (documented option values, first 2 per option) of each rule on its own fixture"
     else:
         w = wide_kinds(kinds_q, kinds_t or kinds_q)
-        d = ("1 layout deviation: (" + ",".join(w) + ") at every position of every fix/cls seed; (" + ",".join(k for k in (kinds_t or kinds_q) if k not in w)
-             + ") at every position of S_q (211 seeds); (" + kinds_q[0] + ") at every position of every generated seed")
+        d = ("1 layout deviation: (" + ",".join(kinds_t or kinds_q) + ") at every position of S_q (211 seeds, no length limit); (" + ",".join(w) + ") at every line of every fix/cls seed")
         k = "1 configuration deviation (every documented option value) of each rule on its own fixture"
     return z + "; " + d + "; " + k
